@@ -7,7 +7,7 @@
 #
 import re
 
-from ural.patterns import URL_IN_TEXT_RE
+from ural.patterns import URL_IN_TEXT_RE, URL_WITH_PROTOCOL_RE
 
 IRRELEVANT_PUNCTUATION = set("!?#\"$%&'()*+,-.:;<=>@[\\]^_`{|}~…’‘`‛«»„‟“”-‐‒–—―−‑⁃,،、")
 
@@ -30,7 +30,10 @@ def urls_from_text(string):
         if s > 0 and string[s - 1] == "[":
             if "](" in url:
                 remainder, url = url.split("](", 1)
-                yield remainder.strip()
+                remainder = remainder.strip()
+
+                if URL_WITH_PROTOCOL_RE.match(remainder):
+                    yield remainder
 
         # NOTE: a markdown link can have an empty target, e.g. "[url]()"
         if not url:
@@ -48,4 +51,7 @@ def urls_from_text(string):
         if i != stop:
             url = url[: i + 1]
 
-        yield url
+        # NOTE: what remains of a markdown link's target, or of a match whose
+        # punctuation was trimmed, is not always a url anymore
+        if URL_WITH_PROTOCOL_RE.match(url):
+            yield url
